@@ -283,6 +283,7 @@ func runHarness(w *World, solver *Solver, pkgName, harness string, params map[st
 		in.pathShared = nil
 		in.pathSync = nil
 		in.lockDepth = 0
+		in.parBranch = 0
 		func() {
 			defer func() {
 				in.rollback()
